@@ -3,7 +3,8 @@ import itertools
 import t2t, impl, corr
 
 OBLIGATIONS = ['Yalafi.C06_longest_match', 'Yalafi.C06_no_match', 'Yalafi.C06_scan_text_char', 'Yalafi.C06_tables_documented',
-               'Yalafi.C06_plain_fixed_point', 'Yalafi.C06_plain_fixed_point_text']
+               'Yalafi.C06_plain_fixed_point', 'Yalafi.C06_plain_fixed_point_text',
+               'Yalafi.C06_specials_follow_table', 'Yalafi.C06_specials_tables_current']
 
 # the documented table of the property statement (README), independent of the code
 DOCUMENTED = {'--': '–', '---': '—', '``': '“', "''": '”', '~': ' ', '\\,': ' ',
